@@ -26,7 +26,7 @@ package eval
 //@   && (forall k int :: {pe.sortedAdminNetpols[k]} (0 <= k && k < len(pe.sortedAdminNetpols)) ==> anpValid(pe.sortedAdminNetpols[k]))
 
 //@ func (*PolicyEngine).sortAdminNetpolsByPriority$1
-//@   sortspec slice: pe.sortedAdminNetpols; flag: err != nil; conflict: anpConflict; less: anpLess
+//@   sortspec [C19,C02] slice: pe.sortedAdminNetpols; flag: err != nil; conflict: anpConflict; less: anpLess
 //@   requires pe != nil && anpsNonNil(pe)
 //@   modifies *error { r | r == addr(err) }
 
